@@ -523,8 +523,9 @@ func init() {
 				names = append(names, f)
 			}
 		}
+		prefix := "gen:"
 		if !on["notnull"] && !on["uniq"] {
-			continue
+			prefix = "ok:" // the plan succeeds: only previewed (--dry-run), never expected to fail
 		}
 		var b strings.Builder
 		b.WriteString("schema \"main\" {}\n")
@@ -544,7 +545,7 @@ func init() {
 		if !on["dropgone"] {
 			b.WriteString("table \"gone\" {\n  schema = schema.main\n  column \"id\" {\n    type = integer\n    null = true\n  }\n}\n")
 		}
-		scenarios["gen:"+strings.Join(names, "+")] = struct {
+		scenarios[prefix+strings.Join(names, "+")] = struct {
 			setup   []string
 			desired string
 		}{
@@ -586,6 +587,19 @@ func evalSchema(c Case) (problems []string, skipped string) {
 		}
 		args, stdin = a2, "\n"
 	}
+	rejected := false // a flag combination the command may refuse (it still must not touch the database)
+	if c.Kind == "schema_dryrun" {
+		switch c.Extra {
+		case "format_json":
+			args = append(args, "--format", "{{ json .Changes }}")
+		case "auto_approve":
+			args, rejected = append(args, "--auto-approve"), true
+		case "auto_approve_format":
+			args, rejected = append(args, "--auto-approve", "--format", "{{ json .Changes }}"), true
+		case "auto_approve_log":
+			args, rejected = append(args, "--auto-approve", "--log", "{{ json .Changes }}"), true
+		}
+	}
 	res := w.RunStdin(stdin, nil, args...)
 	after, err := w.Dump("db.sqlite")
 	if err != nil {
@@ -596,7 +610,7 @@ func evalSchema(c Case) (problems []string, skipped string) {
 		if before != after {
 			bad("`schema apply --dry-run` (exit %d) changed the database:\n%s", res.Exit, dumpDiff(before, after))
 		}
-		if !strings.Contains(res.Stdout, "t") || res.Exit != 0 {
+		if !rejected && (strings.TrimSpace(res.Stdout) == "" || res.Exit != 0) {
 			bad("dry-run did not print a plan: %s", res)
 		}
 	case c.Mode == "none":
@@ -847,6 +861,16 @@ func cases(tier string) []Case {
 		cs = append(cs, Case{Kind: "migrate_dryrun", Mode: "file", State: st, Extra: "--allow-dirty", FailF: -1})
 	}
 	for name := range scenarios {
+		// the preview together with the other flags of the command: nothing may ever change.
+		for _, x := range []string{"format_json", "auto_approve", "auto_approve_format", "auto_approve_log"} {
+			if strings.HasPrefix(name, "ok:") || strings.Count(name, "+") == 0 {
+				cs = append(cs, Case{Kind: "schema_dryrun", Scen: name, FailF: -1, Extra: x})
+			}
+		}
+		if strings.HasPrefix(name, "ok:") {
+			cs = append(cs, Case{Kind: "schema_dryrun", Scen: name, FailF: -1})
+			continue
+		}
 		cs = append(cs, Case{Kind: "schema_fail", Scen: name, FailF: -1, Extra: "prompt"}, Case{Kind: "schema_fail", Scen: name, Mode: "file", FailF: -1, Extra: "prompt"})
 		cs = append(cs, Case{Kind: "schema_fail", Scen: name, FailF: -1}, Case{Kind: "schema_fail", Scen: name, Mode: "none", FailF: -1},
 			Case{Kind: "schema_fail", Scen: name, Mode: "file", FailF: -1}, Case{Kind: "schema_dryrun", Scen: name, FailF: -1})
@@ -892,7 +916,7 @@ func classify(c Case, problems []string) string {
 
 func Run(r *report.Run) {
 	defer clih.Cleanup()
-	r.Rule = "real CLI on real SQLite files: (1) `migrate apply`: directory shapes (1-3 files x 1-3 statements, and directories with a checkpoint file preceded by older files) x a really failing statement (naming a missing table; for the plain directories also a constraint violation with the SQLite conflict clause OR ROLLBACK) at every position x tx-mode {file, all, none} x per-file txmode directive on the failing / preceding file x apply count {all, 1, 2} (plus every pair of failing positions in one file, repaired one after the other): the state after the failure (journal rows written by the statements themselves + revision rows, read by our own connection) must equal what the mode promises, and after repairing the file and re-running the full dump must equal that of a run that never failed; (1b) a failure of the commit itself: the SQLite driver refuses to commit a transaction that adds a foreign-key violation; on a database that already holds one (two) orphan rows the first file replaces them by another orphan (same / lower count): file and all mode must fail and keep nothing; (1c) a commit that fails for a reason outside the file: another connection holds a read transaction on the database while the files are applied (connection with and without foreign-key enforcement): the command must fail, keep nothing of the files, and the same command again must complete; (2) `migrate apply --dry-run` from 5 start states (fresh, partially applied, one file applied, fully applied, non-empty without history) x modes x count x {--baseline, --allow-dirty}: dump and directory byte-identical; (3) `schema apply` on populated tables whose plan fails midway on the data, default / file / none tx-mode, approved by --auto-approve or at the prompt, and --dry-run; non-trivial = every case; distinct = the case tuple"
+	r.Rule = "real CLI on real SQLite files: (1) `migrate apply`: directory shapes (1-3 files x 1-3 statements, and directories with a checkpoint file preceded by older files) x a really failing statement (naming a missing table; for the plain directories also a constraint violation with the SQLite conflict clause OR ROLLBACK) at every position x tx-mode {file, all, none} x per-file txmode directive on the failing / preceding file x apply count {all, 1, 2} (plus every pair of failing positions in one file, repaired one after the other): the state after the failure (journal rows written by the statements themselves + revision rows, read by our own connection) must equal what the mode promises, and after repairing the file and re-running the full dump must equal that of a run that never failed; (1b) a failure of the commit itself: the SQLite driver refuses to commit a transaction that adds a foreign-key violation; on a database that already holds one (two) orphan rows the first file replaces them by another orphan (same / lower count): file and all mode must fail and keep nothing; (1c) a commit that fails for a reason outside the file: another connection holds a read transaction on the database while the files are applied (connection with and without foreign-key enforcement): the command must fail, keep nothing of the files, and the same command again must complete; (2) `migrate apply --dry-run` from 5 start states (fresh, partially applied, one file applied, fully applied, non-empty without history) x modes x count x {--baseline, --allow-dirty}: dump and directory byte-identical; (3) `schema apply` on populated tables whose plan fails midway on the data, default / file / none tx-mode, approved by --auto-approve or at the prompt, and --dry-run (also of plans that would succeed, alone and together with --format / --log / --auto-approve); non-trivial = every case; distinct = the case tuple"
 	r.Assumptions = []string{
 		"after a repair the hash / partial_hashes columns of the revision row legitimately differ from a never-failed run and are masked; timestamps are masked",
 		"`--tx-mode all` with per-file txmode directives is rejected by the CLI and not enumerated",
